@@ -104,7 +104,7 @@ PROPS['C08'] = dict(
          'by dns_decode, matched by query_datalen and extracted by unpack_data in the server call shape; 1 case in 41 is a system case: the REAL client with a generated -M / codec / type / autoprobed fragment size runs against the real server over simnet and every name it passes to sendto() (version, login, codec tests, fragment-size probes, pings, data) must be <= -M characters and under the domain. non-trivial iff the '
          'chunk truncates the payload, or the encoded length is a multiple of 57, or L / domain length is at an extreme',
     exhaustive_text='every L in 100..255 x every domain length 3..min(128,L-24) x 4 codecs x payload lengths '
-                    '{1,2,block-1,block,block+1,cap-1,cap,cap+1,2048}; header 1 or 5 (both in thorough)',
+                    '{1,2,block-1,block,block+1,cap-1,cap,cap+1,2048}; header 1 or 5 (both in thorough) Round 7: one system case in three uses an 82-character tunnel domain with -M = domain + 24..32 (fixed-size handshake names at the limit).',
     engine_text='exhaustive grid + rapidcheck, unit shape; the real clients emitted names are additionally monitored in the simnet properties (C10 monitor)',
     bounds='payload <= 2048 bytes Round 5: client case against a scripted server refusing the codec switch; system case judges end-to-end extraction with last fragments of 1 and 2 bytes.',
     trusted_base=TB_COMMON + ['ref/refdns.cc strict parser', 'ref/refmisc.cc codecs and label-wise matcher', 'glue/unit_api.c'],
@@ -167,7 +167,7 @@ PROPS['C09'] = dict(
          'contents/ids. non-trivial iff the payload needs >= 2 TXT strings / >= 2 MX-SRV records / a dotted name, or lies '
          'within 2 of the largest exact length',
     exhaustive_text='thorough: every length 2..4096 x 5 contents x all 210 configurations; quick: lengths 2..320 + windows at '
-                    'multiples of 252 + every 5th length, 2 contents',
+                    'multiples of 252 + every 5th length, 2 contents Round 7: content independence -- a 0xff payload of the same length goes through the same configuration; exactly one of the two being delivered exactly is a violation.',
     engine_text='complete length sweeps + rapidcheck on the glue pair (static write_dns of iodined.c -> static read_dns_withq of client.c)',
     bounds='payload 2..4096 bytes Round 5: fourth query name with 63-character labels.',
     trusted_base=TB_COMMON + ['glue/glue_server.c and glue/glue_client.c: textual inclusion of iodined.c / client.c; depend on the '
@@ -201,7 +201,7 @@ PROPS['C14'] = dict(
          '(credit accounting): every query the server read that parses (strict RFC 1035 parser) adds one credit (source, id, name, type); every '
          'answer the server emits must consume one unanswered matching credit; after every server step at most two distinct ping/data '
          'questions per session are unanswered. non-trivial iff a remembered duplicate of a pending query was answered together with the '
-         'original, or a pending query was re-delivered while two queries were held',
+         'original, or a pending query was re-delivered while two queries were held Round 8: histories include slot re-use after 61..76 s of silence, half of them from another port of the same host.',
     engine_text='rapidcheck over choice tapes; simnet hosting the real iodined; scripted sessions (refproto); wire monitor; handshake-type requests mid-session',
     bounds='<= 3 sessions, <= 60 actions Round 5: infrastructure queries (ns/www A, NS, look-alikes).', trusted_base=TB_SIM, assumptions=AS_SIM + ['without -b (forwarded replies are C20)'],
 )
@@ -223,7 +223,7 @@ PROPS['C16'] = dict(
          'swallows the answers to its own repeats; oracles: every packet accepted on either tun device is written to the other exactly once, in '
          'order, byte-identical, nothing else is written (downstream loss is not judged in runs where a swallowed answer to a case-changed repeat '
          'carried new data: the server does not repeat single-fragment packets), and an identical repeat with a new id of one of the 4 most '
-         'recently answered queries gets the payload of the original answer; such a case is non-trivial iff >= 3 repeats were sent and >= 2 packets delivered',
+         'recently answered queries gets the payload of the original answer; such a case is non-trivial iff >= 3 repeats were sent and >= 2 packets delivered Round 7: one scripted session in four negotiates a fragment size of 1200..4094 (2047/2048/2049/4093/4094 included) and is offered packets up to 4600 bytes.',
     engine_text='rapidcheck over choice tapes; simnet hosting the real iodined; scripted session (refproto) or real iodine client behind a re-delivering relay',
     bounds='1 session, <= 90 actions (scripted); <= 40 offered packets (real client)', trusted_base=TB_SIM,
     assumptions=AS_SIM + ['window sizes are reduced by the number of case-changed re-deliveries so far (each may legitimately be remembered as a new query)'],
